@@ -292,8 +292,8 @@ class Stream(StreamIterator[_RecvType], Generic[_SendType, _RecvType]):
                 self._end_done = True
 
     def _raise_for_status(self, headers_map: Dict[str, str]) -> None:
-        status = headers_map[':status']
-        if status is not None and status != _H2_OK:
+        status = headers_map.get(':status')
+        if status != _H2_OK:
             grpc_status = _H2_TO_GRPC_STATUS_MAP.get(status, Status.UNKNOWN)
             raise GRPCError(grpc_status,
                             'Received :status = {!r}'.format(status))
